@@ -145,6 +145,15 @@ Proof.
   induction rest as [|x r IH]; simpl; auto. rewrite H2 by (left; auto). f_equal. apply IH.
   intros y Hy. apply H2. right. auto.
 Qed.
+Lemma filter_ge_all i (p : Z -> bool) rest :
+  (forall x, In x rest -> i <= x) -> filter (fun x => i <=? x) (filter p rest) = filter p rest.
+Proof.
+  induction rest as [|x r IH]; intro D; simpl; auto.
+  assert (i <= x) by (apply D; left; auto).
+  assert (IH' : filter (fun x => i <=? x) (filter p r) = filter p r) by (apply IH; intros y Hy; apply D; right; auto).
+  destruct (p x); simpl; auto.
+  assert ((i <=? x) = true) as -> by (apply Z.leb_le; auto). f_equal. auto.
+Qed.
 Lemma iter_from_payload h v i : Inv v ->
   exists v' s, (match it_from h v i with
                 | Some (v0, cur) => iter_loop (sfuel v) h v0 cur []
@@ -162,12 +171,7 @@ Proof.
   rewrite A, filter_app, filter_app.
   assert (filter (fun x => i <=? x) (filter (nonnull h v) pre) = []) as ->.
   { apply filter_none. intros y Hy. apply filter_In in Hy. destruct Hy as [Hy _]. apply C in Hy. apply Z.leb_gt. lia. }
-  simpl. induction rest as [|x r IH]; simpl; auto.
-  assert (i <= x) by (apply D; left; auto).
-  destruct (nonnull h v x); simpl.
-  - assert ((i <=? x) = true) as -> by (apply Z.leb_le; auto). f_equal. apply IH; auto.
-    + intros y Hy. apply D. right. auto.
-  - apply IH. intros y Hy. apply D. right. auto.
+  simpl. symmetry. apply filter_ge_all. auto.
 Qed.
 
 (* ---- the payload of a step ----------------------------------------------------------------- *)
